@@ -16,6 +16,7 @@ import (
 	"strings"
 	"sync"
 	"testing"
+	"time"
 
 	"pgregory.net/rapid"
 )
@@ -212,8 +213,24 @@ func Check[C any](t *testing.T, baseChecks int, gen func(*rapid.T) C, run func(C
 	st := getStats(name)
 	st.Requested += n
 	mu.Unlock()
+	// Shrinking re-executes the case; when a failing execution costs seconds (hangs that run into a bound), rapid's
+	// own time limit is only looked at between passes. After the budget, candidates are no longer executed: the last
+	// case that was seen failing keeps failing (its verdict was observed), every other candidate counts as passing.
+	budget := 30 * time.Second
+	if v, err := time.ParseDuration(os.Getenv("HX_SHRINKBUDGET")); err == nil {
+		budget = v
+	}
+	var firstFailAt time.Time
+	var lastFailCase, lastFailText string
 	rapid.Check(t, func(rt *rapid.T) {
 		c := gen(rt)
+		if !firstFailAt.IsZero() && time.Since(firstFailAt) > budget {
+			cj, _ := json.Marshal(c)
+			if string(cj) == lastFailCase {
+				rt.Fatalf("%s", lastFailText)
+			}
+			return
+		}
 		ctx := &Ctx{Log: rt.Logf}
 		var f *Failure
 		func() {
@@ -227,7 +244,12 @@ func Check[C any](t *testing.T, baseChecks int, gen func(*rapid.T) C, run func(C
 		if f != nil {
 			writeFail(name, f.Sig, f.Msg, seed, c)
 			cj, _ := json.Marshal(c)
-			rt.Fatalf("FAIL sig=%s\n%s\ncase=%s", f.Sig, f.Msg, cj)
+			if firstFailAt.IsZero() {
+				firstFailAt = time.Now()
+			}
+			lastFailCase = string(cj)
+			lastFailText = fmt.Sprintf("FAIL sig=%s\n%s\ncase=%s", f.Sig, f.Msg, cj)
+			rt.Fatalf("%s", lastFailText)
 		}
 		mu.Lock()
 		st.absorb(ctx)
